@@ -1,5 +1,6 @@
 import Driver.Proto
 import XgcmModel.Model.Dispatch
+import XgcmModel.Model.InterpLike
 import XgcmModel.Spec.C01
 import XgcmModel.Gen.Gridops
 namespace Xgcm.Driver
@@ -28,5 +29,14 @@ def c01spec : P String := do
   match Func.ofString? fname with
   | none => pure "none"
   | some fn => pure (fmtOpt (specDispatch (fn.op ratOps) g a axes to b f))
+
+/-- `c10interplike <grid> <arr> <like dims> <boundary> <fill>`: the model of Grid.interp_like -/
+def c10interplike : P String := do
+  let g ← grid
+  let a ← ndarr
+  let likeDims ← counted tok
+  let b ← kw tok
+  let f ← kw rat
+  pure (fmtRes (interpLike ratOps Gen.gridops g a likeDims b f))
 
 end Xgcm.Driver
